@@ -24,10 +24,10 @@ CHECKS = {
          "After Completed the driver routes further input to the application; the reference peer is hand-written from the RTMP 1.0 / RTMPE documents."),
  "C09": ("exploration","seeded simulation with refinement against an executable reference state machine (ServerModel): scripted client peer and scripted application actor interleaved by the scheduler with link segmentation; tracked outputs of every call matched against required/forbidden/permitted behaviour with backtracking","§4 C09, App. A.3",
          "Seeded search over histories of peer messages x application calls (valid, stale, never-issued ids; existing, deleted, never-created streams; malformed argument lists); every call's events and decoded responses must be explained by the model.",
-         "Model written from the statement, permissive where it is silent (listed in DESIGN App. A.3); follows a session up to the first Err from handle_input."),
+         "Model written from the statement, permissive where it is silent (listed in DESIGN App. A.3); a failed handle_input ends the history only in half of the cases (life after an error, DESIGN 12.4 round 4): refusals are remembered until some call succeeds, so a session that is closed for good by an error is not flagged."),
  "C10": ("exploration","seeded simulation with refinement against an executable reference state machine (ClientModel): scripted application actor calling every public call in every state and scripted server peer, interleaved by the scheduler with link segmentation","§4 C10, App. A.4",
          "Seeded search over histories of application calls x server messages (current/stale/unknown transaction ids, with/without stream id, known/unknown/malformed status codes, media on active/other streams); every call's events and decoded requests must be explained by the model.",
-         "Model written from the statement, permissive on Err-versus-ignore; scripted server answers at most one pending connect with _result; follows a session up to the first Err."),
+         "Model written from the statement, permissive on Err-versus-ignore; scripted server answers at most one pending connect with _result; life after an error as in C09 (a failed answer spends its transaction)."),
  "C11": ("exploration","deterministic simulation stratified over the RNG seam: the simulator steers the handshake's random selector bytes through all 728 digest offsets per role and drives it against a reference peer using each scheme/offset; independent SHA-256/HMAC verifier","§4 C11",
          "Quick tier covers the full 2x728 (own) + 2x2x728 (received) offset grid (4368 cells, measured); thorough adds 1M random fillings. Every packet 1 digest, packet 2 signature and digest-less echo is verified by an independent HMAC-SHA256.",
          "Own SHA-256/HMAC implementation checked against FIPS 180-4 / RFC 4231 vectors at every start; role keys and the 32-byte suffix from the public RTMPE description."),
